@@ -148,6 +148,11 @@ def one_request(stub: bytes, vt: bool, sig_len: int, sign: bool, flavour: str, r
     obs = dict(srv.obs or {})
     wraps = [e for e in log if e["ev"] == "wrap"]
     if not obs:
+        if len(srv.buf) >= 16 and srv.buf[2] == refdc.PT_REQUEST:
+            # the client sent a request PDU whose frag_len field is not the number of octets it sent: the peer waits for the rest
+            # (or would read into the next PDU).  Recorded as what it is and judged by TraceFraming, not a failure of the machinery.
+            return {"partial": True, "fragLen": struct.unpack("<H", srv.buf[8:10])[0], "actualLen": len(srv.buf),
+                    "authLen": struct.unpack("<H", srv.buf[10:12])[0]}, resp, log
         raise MachineryError(f"no request reached the scripted server ({len(wraps)} wrap calls; client outcome {resp!r})")
     obs["wrapCalls"] = len(wraps)
     # a request that reached the peer without exactly one pass through the security context was not sealed as specified:
@@ -244,7 +249,8 @@ def run(ctx: Ctx) -> int:
                     fls = ("sync", "async") if ctx.thorough or (sl + sig) % 5 == 0 else (("sync",) if (sl + sig // 4) % 2 else ("async",))
                     for fl in fls:
                         obs, _, _ = one_request(stub, vt, sig, sign, fl)
-                        rows.append({"id": len(rows), "kind": "request", "stub": sl, "vt": VT_LEN if vt else 0, "sig": sig, "sign": sign, "fl": fl, "obs": obs})
+                        rows.append({"id": len(rows), "kind": "request_partial" if obs.get("partial") else "request", "stub": sl, "vt": VT_LEN if vt else 0,
+                                     "sig": sig, "sign": sign, "fl": fl, "obs": obs})
                     ctx.distinct(("req", sl, vt, sig, sign))
     # several requests of different lengths over one connection (per-request framing state must not be reused)
     for k in range(ctx.pick(48, 400)):
@@ -298,7 +304,7 @@ def run(ctx: Ctx) -> int:
             clauses = [c for c in clauses if not c.startswith("MACHINERY")]
             if not clauses:
                 continue
-        if r_["kind"] == "request":
+        if r_["kind"] in ("request", "request_partial"):
             key = f"framing:{clauses[0]}:vt{int(r_['vt'] > 0)}:stub%16={r_['stub'] % 16}:sig{r_['sig']}"
             det = f"stub {r_['stub']} bytes, VT {r_['vt']}, signature {r_['sig']}, header signing {r_['sign']} [{r_['fl']}]: observed {r_['obs']}"
         else:
